@@ -89,7 +89,14 @@ def run_script(script, payloads, roots, rng):
          ["fault", msg number, recipient, "dup" | "corrupt"]   the first delivery of that message to that recipient is faulted
          ["restart", c]                          at a quiescent point
        Returns (world, outcome) - outcome: None | ("exception", step, exc) | ("diverged", n)."""
-    w = e2e.World(roots, script["n"])
+    try:
+        w = e2e.World(roots, script["n"])
+    except core.MachineryError:
+        raise
+    except Exception as ex:
+        import traceback
+        # an account cannot even log in and publish its keys
+        return _Stillborn(), ("exception", ["boot"], "%s: %s @ %s" % (type(ex).__name__, ex, traceback.format_exc().splitlines()[-3].strip()))
     plan = {}
     used = set()
     nmsg = 0
@@ -180,6 +187,14 @@ def run_script(script, payloads, roots, rng):
         import traceback
         outcome = ("exception", step, "%s: %s @ %s" % (type(ex).__name__, ex, traceback.format_exc().splitlines()[-3].strip()))
     return w, outcome
+
+
+class _Stillborn(object):
+    """Stands in for a world whose accounts could not be started."""
+    trace, shown, leaks, frames = [], [], [], []
+
+    def close(self):
+        pass
 
 
 def families(thorough, rng):
